@@ -908,6 +908,11 @@ PROPS["C03"]["assumptions"] = PROPS["C03"]["assumptions"] + [
     "instantiation units: 12 determinism wrappers (the exec function is a function of its arguments), 2 BTreeMap axioms, derive(PartialEq) of Taint / DataDomain restated, R9 `self != other` in the Data merge_with",
 ]
 
+PROPS["C04"]["not_covered"] = PROPS["C04"]["not_covered"] + [
+    "DataDomain::without_widening_hints at T = IntervalDomain (the generic hypothesis dd_hints_hyp is unconditional, IntervalDomain delivers it under inv only: no witness at the real instantiation; M1)",
+    "DataDomain::intersect with both targets and absolute parts at T = IntervalDomain (dd_isect_pre needs the widening delay of the intersection, which IntervalDomain::intersect does not export; M3)",
+]
+
 # ---- satisfiability audit (SAT_AUDIT.md): every property -------------------------------------------------------------
 TWINS["interval_base"] = [t for t in TWINS["interval_base"] if t[0] not in ("Interval::is_top", "Interval::new_top")]
 for _pid in PROPS:
